@@ -290,7 +290,12 @@ class _P:
         m = re.match(r"-?\d+", self.s[self.i:])
         if m:
             self.i += len(m.group(0))
-            return int(m.group(0))
+            v = int(m.group(0))
+            if self.s.startswith("..", self.i):
+                m2 = re.match(r"-?\d+", self.s[self.i + 2:])
+                self.i += 2 + len(m2.group(0))
+                return TSet(range(v, int(m2.group(0)) + 1))
+            return v
         m = re.match(r"\w+", self.s[self.i:])
         if m:
             self.i += len(m.group(0))
